@@ -355,6 +355,16 @@ func genRange(r *rand.Rand, id int, unwrapOK bool) *mexprIn {
 		if r.Intn(4) == 0 {
 			eps, _ := json.Marshal(&ReAST{T: "eps"})
 			e.Unwrap.Filters = []matcherIn{{Label: B(pick(r, []string{"app", "zone"})), Op: pick(r, []string{"eq", "neq"}), Val: B(pick(r, []string{"a", "x", ""})), Re: eps}}
+			// two or three matchers (the code then builds a pipeline of them: ALL must hold), also regular expressions, also on the unwrapped label itself
+			for k := r.Intn(3); k > 0; k-- {
+				m := matcherIn{Label: B(pick(r, []string{"app", "zone", "v", "nolabel"})), Op: pick(r, []string{"eq", "neq", "re", "nre"}), Val: B(pick(r, []string{"a", "b", "x", ""})), Re: eps}
+				if m.Op == "re" || m.Op == "nre" {
+					re := genReA(r, 2, "abx1")
+					m.Val = B(re.Text())
+					m.Re, _ = json.Marshal(re)
+				}
+				e.Unwrap.Filters = append(e.Unwrap.Filters, m)
+			}
 		}
 		if groupableRange[e.Op] && r.Intn(2) == 0 {
 			e.Grp = grpIn{Mode: []string{"by", "without"}[r.Intn(2)], Labels: IntsList{B(pick(r, []string{"app", "zone", "v"}))}}
@@ -481,6 +491,12 @@ func genMetric(r *rand.Rand, mode string) metricIn {
 		}
 	case "binop":
 		in.Recs, in.Expr, in.Evals = genBinOpCase(r)
+		if r.Intn(20) == 0 {
+			// a query that is one number: a scalar at an instant, one label-less series over a range (sub-second steps included)
+			in.Expr = *litExpr([][]int{{0, 1}, {2, 1}, {-3, 1}, {1, 2}, {5, 2}, {1000, 1}, {-1, 4}}[r.Intn(7)])
+			in.Evals = []evalIn{{Start: mBase + 60, End: mBase + 60}, {Start: mBase, End: mBase + 90, Step: 30}, {Start: mBase + 10, End: mBase + 10, Step: 5},
+				{Start: mBase, End: mBase + 2, StepMs: 500, StartMs: 250, EndMs: 750}, {Start: mBase + 7, End: mBase + 8, Step: 2}}
+		}
 	case "series":
 		// many labels, values that are prefixes / concatenations of one another, everything inside one wide window
 		names := []string{"a", "ab", "b", "abc", "c", "bc", "x"}
